@@ -582,6 +582,10 @@ def stepLine (s : DState) (line : String) : DState :=
             s.divergeK s!"kernel {c.fnName} {c.sk.toString}>{c.dk.toString} x={x}" (toString m) (toString y)
       let s := kernelPreds s c x y
       { s with kprev := some (x, y) }
+  else if cmd == "gencrash" then
+    -- the harness generator itself failed on a state the implementation produced (it relies on what
+    -- the properties promise); everything up to here has been judged line by line
+    { s with dead := false }.diverge "harness-generator" "implementation state as promised by the properties" (t[1]?.getD "")
   else if cmd == "kpanic" then
     -- a conversion panicked on well-formed buffers with equal channel counts: no kernel of the model does
     let fn := t[1]?.getD ""; let detail := s!"entry={fn} sk={t[2]?.getD ""} dk={t[3]?.getD ""} types={t[4]?.getD ""} panic={t[5]?.getD ""}"
